@@ -24,6 +24,7 @@ import XotModel.Driver.Accepted
 import XotModel.Driver.Fprefix
 import XotModel.Driver.Fanyorder
 import XotModel.Driver.Fidx
+import XotModel.Driver.Fcreation
 
 open XotModel.Driver
 
@@ -59,17 +60,17 @@ def dispatchAll (st : MState) (line : String) : MState × String :=
     (match handleFidx st.forest st.idx ((words line).drop 1) with
      | some (fs, idx, resp) => ({ st with forest := fs, idx := idx }, resp)
      | none => (st, "bad-request"))
-  | "forest" :: "spec" :: rest => (st, (handleFspec st.forest ("spec" :: rest)).getD "bad-request")
-  | "forest" :: "specx" :: rest => (st, (handleFspec st.forest ("specx" :: rest)).getD "bad-request")
   | "forest" :: "prog" :: rest => (st, (handleFanyorder st.forest rest).getD "bad-request")
-  | "forest" :: "specp" :: rest => (st, (handleFspec st.forest ("specp" :: rest)).getD "bad-request")
-  | "forest" :: "specpx" :: rest => (st, (handleFspec st.forest ("specpx" :: rest)).getD "bad-request")
+  | "forest" :: "spec" :: _ | "forest" :: "specx" :: _ | "forest" :: "specp" :: _ | "forest" :: "specpx" :: _ =>
+    let ws := (words line).drop 1
+    (st, ((handleFspec st.forest ws).orElse (fun _ => handleFcreationSpec st.forest ws)).getD "bad-request")
   | "forest" :: "fixed" :: rest => (match handleFfixed st.forest rest with | some (fs, resp) => ({ st with forest := fs }, resp) | none => (st, "bad-request"))
   | "forest" :: rest =>
     (match handleFprefix st.d.env st.forest rest with
      | some (fs, env, resp) => ({ st with forest := fs, d := { st.d with env := env } }, resp)
      | none =>
-       (match (handleFclone st.d.env st.forest rest).orElse (fun _ => handleForest st.forest rest) with
+       (match ((handleFclone st.d.env st.forest rest).orElse (fun _ => handleForest st.forest rest)).orElse
+           (fun _ => handleFcreation st.forest rest) with
         | some (fs, resp) => ({ st with forest := fs }, resp)
         | none => (st, "bad-request")))
   | "fmap" :: rest =>
